@@ -15,7 +15,8 @@ length is compared with ``statistics().tasks_waiting``.  At quiescence: every no
 never-cancelled waiter has returned holding the lock; no un-notified waiter returned.
 
 Refusal clause: wait / notify / notify_all by a task that never held the lock, that held
-and released it, or while another task holds it -> RuntimeError, queue unchanged.
+and released it (also when release() handed the lock straight to a queued contender that
+has not run yet), or while another task holds it -> RuntimeError, queue unchanged.
 """
 
 from __future__ import annotations
@@ -83,7 +84,7 @@ def gen_random(rng: random.Random, cfgs: list[str]) -> dict:
         if kind == "cond" and rng.random() < 0.3:
             ops.append(["wait", rng.randint(0, 2)])
 
-        actors.append({"role": "W", "mode": rng.choice(["scope", "native"]), "ops": ops})
+        actors.append({"role": "W", "mode": rng.choice(["scope", "native", "native-in-group"]), "ops": ops})
 
     for _ in range(rng.randint(1, 2)):
         ops = []
@@ -108,7 +109,7 @@ def gen_random(rng: random.Random, cfgs: list[str]) -> dict:
 
 def sweep_cases(cfgs: list[str]):  # noqa: ANN201
     for cfg in cfgs:
-        for mode in ("scope", "native"):
+        for mode in ("scope", "native", "native-in-group"):
             for place in ("before", "after"):
                 for victim in (0, 1, 2):
                     for at in range(0, 14):
@@ -134,7 +135,8 @@ def sweep_cases(cfgs: list[str]):  # noqa: ANN201
                         yield {"cfg": cfg, "kind": "event", "actors": actors,
                                "agents": [{"at": at, "place": place, "victim": victim}]}  # fmt: skip
 
-        for caller in ("never-held", "held-and-released", "other-holds"):
+        for caller in ("never-held", "held-and-released", "other-holds",
+                       "released-to-queued-contender", "released-to-2-queued-contenders"):
             for method in ("wait", "notify", "notify_all"):
                 for nq in (0, 1, 2):
                     yield {"cfg": cfg, "kind": "refusal", "caller": caller, "method": method,
@@ -459,6 +461,17 @@ def execute_refusal(case: dict) -> dict:
                 got = anyio.Event()
                 tg.start_soon(holder, got, release_holder)
                 await got.wait()
+            elif case["caller"].startswith("released-to-"):
+                # the lock is handed straight to a task queued on it: from release() on the
+                # caller no longer holds it, although the new holder has not run yet
+                await cond.acquire()
+                for _ in range(2 if "2-queued" in case["caller"] else 1):
+                    tg.start_soon(holder, anyio.Event(), release_holder)
+
+                for _ in range(3):
+                    await checkpoint()
+
+                cond.release()
 
             before = cond.statistics().tasks_waiting
             log.append(("before", before))
